@@ -205,8 +205,11 @@ func modMathFact(ctx *Ctx, buf *any, val any, args []any) (err error) {
 }
 
 func modMathMax(ctx *Ctx, buf *any, _ any, args []any) (err error) {
-	var f, d float64
-	if f, d, err = mathConvArgs2(args); err != nil {
+	var (
+		f, d float64
+		ok   bool
+	)
+	if f, d, err, ok = mathConvArgs2(args); !ok {
 		return
 	}
 	ctx.BufF = math.Max(f, d)
@@ -215,8 +218,11 @@ func modMathMax(ctx *Ctx, buf *any, _ any, args []any) (err error) {
 }
 
 func modMathMin(ctx *Ctx, buf *any, _ any, args []any) (err error) {
-	var f, d float64
-	if f, d, err = mathConvArgs2(args); err != nil {
+	var (
+		f, d float64
+		ok   bool
+	)
+	if f, d, err, ok = mathConvArgs2(args); !ok {
 		return
 	}
 	ctx.BufF = math.Min(f, d)
@@ -259,19 +265,19 @@ func mathConv2(val any, args []any) (float64, float64, error, bool) {
 	return f, d, nil, true
 }
 
-func mathConvArgs2(args []any) (float64, float64, error) {
+func mathConvArgs2(args []any) (float64, float64, error, bool) {
 	if len(args) < 2 {
-		return 0, 0, ErrModPoorArgs
+		return 0, 0, ErrModPoorArgs, false
 	}
 	d, ok := floatConv(args[0])
 	if !ok {
-		return 0, 0, nil
+		return 0, 0, nil, false
 	}
 	f, ok := floatConv(args[1])
 	if !ok {
-		return 0, 0, nil
+		return 0, 0, nil, false
 	}
-	return f, d, nil
+	return f, d, nil, true
 }
 
 func floatConvAny(val any, args []any) (f float64, ok bool) {
